@@ -9,6 +9,7 @@ COMMON = r'''
 #[derive(Debug, Clone, PartialEq)] enum Kind { Unit, Other, Tup(i32, String), Rec { a: i32, b: String } }
 #[derive(Debug, Clone, PartialEq)] struct NC(String);     // not Copy
 #[derive(Debug, Clone)] struct NoEq(i32);                  // neither PartialEq nor PartialOrd
+#[derive(Debug, Clone, PartialEq)] struct TP { pair: ((i32, i32), i32) }
 '''
 
 # target types: (rust type, value expression, [(form name, matching pattern, non-matching pattern)])
@@ -33,6 +34,9 @@ TARGETS = {
         ("slice_wild", "[_, _, _]", "[_, _]"), ("slice_any", "[..]", None),
         # empty composites: they claim the value has NO elements, and fail on this one
         ("slice_empty", None, "[]")]),
+    # slice-like values that are not collections: an iterator with an inherent as_slice() (consumed by next / collect / drain)
+    "into_iter": ("std::vec::IntoIter<i32>", "vec![1, 2, 3].into_iter()", [
+        ("iter_slice", "[1, 2, 3]", "[1, 2]"), ("iter_slice_rest", "[1, ..]", "[2, ..]"), ("iter_slice_any", "[..]", None), ("iter_wild", "_", None)]),
     "nc_vec": ("Vec<NC>", "vec![NC(\"a\".to_string()), NC(\"b\".to_string())]", [
         ("slice_nc", "[NC(\"a\"), NC(\"b\")]", "[NC(\"a\")]"), ("set_nc", "#(NC(\"b\"), NC(\"a\"))", "#(NC(\"b\"), NC(\"b\"))"),
         ("set_nc_wild", "#(_, _)", "#(_)"), ("set_nc_any", "#(..)", None), ("slice_nc_wild", "[_, ..]", None)]),
@@ -57,6 +61,8 @@ POSITIONS = {
     "field": ("#[derive(Debug, Clone)] struct W {{ f: {T}, g: i32 }}", "let v = W {{ f: {V}, g: 1 }};", "v", "W {{ f: {P}, .. }}"),
     "root": ("", "let v: {T} = {V};", "v", "{P}"),
     "root_ref": ("", "let x: {T} = {V}; let v = &x;", "v", "{P}"),
+    # the asserted expression is a `&mut` reference (only C09 uses this position: the value behind it must be unchanged afterwards)
+    "root_mut_ref": ("", "let mut x: {T} = {V}; let v = &mut x;", "v", "{P}"),
     "root_field_expr": ("#[derive(Debug, Clone)] struct W {{ f: {T}, g: i32 }}", "let w = W {{ f: {V}, g: 1 }};", "w.f", "{P}"),
     "root_call": ("fn mk() -> {T} {{ {V} }}", "", "mk()", "{P}"),
     # computed asserted expressions whose value is a REFERENCE (the pattern must see it as it sees a reference variable):
@@ -105,6 +111,7 @@ POSITIONS = {
 }
 
 REFERENCE = "field"
+ONLY_ON_REQUEST = {"root_mut_ref"}
 LOWPREC = {"i32": "x + 0", "string": "x.clone() + \"\""}
 
 
@@ -117,22 +124,26 @@ def program(target, pos, pattern, reuse=False):
     if root == "<LOWPREC>":
         root = LOWPREC[target]
     after = ""
+    before = ""
     if reuse:
+        # ... and unchanged: its Debug form before and after the assertion (a drained iterator, a sorted or truncated collection)
+        before = "let _before = format!(\"{:?}\", &(%s)); " % root
+
         # the asserted expression must still be fully usable: move it (or, for place
         # expressions that cannot be moved, borrow it) after the assertion
-        after = " let _still_usable = &(%s); let _debug = format!(\"{:?}\", _still_usable);" % root
+        after = " let _still_usable = &(%s); let _debug = format!(\"{:?}\", _still_usable); if _debug != _before { std::process::abort(); }" % root
         if root == "v" and not setup.strip().endswith("&x;"):
             after += " let _moved = v;"
     if pos.endswith("_via_macro"):
         call = "macro_rules! fwd { ($v:expr) => { assert_struct!($v, %s) } } fwd!(%s);" % (pat, root)
     else:
         call = "assert_struct!(%s, %s);" % (root, pat)
-    body = "%s let pat = \"^he\"; let nopat = \"^zz\"; %s%s" % (setup, call, after)
+    body = "%s let pat = \"^he\"; let nopat = \"^zz\"; %s%s%s" % (setup, before, call, after)
     return (e2e.PRELUDE + COMMON + decl +
             "\nfn main() { std::panic::set_hook(Box::new(|_| {})); run_case(\"c\", || { %s }); }\n" % body)
 
 
-def cells(targets=None, positions=None, mismatches=True):
+def cells(targets=None, positions=None, mismatches=True, extra_positions=()):
     """yields (target, form, pos, pattern, expect_match)"""
     for tname, (ty, val, forms) in TARGETS.items():
         if targets and tname not in targets:
@@ -140,6 +151,8 @@ def cells(targets=None, positions=None, mismatches=True):
         for fname, pm, pn in forms:
             for pos in POSITIONS:
                 if positions and pos not in positions:
+                    continue
+                if pos in ONLY_ON_REQUEST and pos not in extra_positions:
                     continue
                 if pos == "root_lowprec" and tname not in LOWPREC:
                     continue
